@@ -1,13 +1,128 @@
-(* C14 — pinned statements; proofs live in Proofs/. *)
-From NW Require Import Base.Bytes Model.SchemaTypes Gen.Schema Model.Codec Model.Ids Model.Server.
+(* C14 — Configured limits are enforced and their counters do not drift.
+   Pinned statements (types pasted verbatim by tools/pin.py); proofs in Proofs/ServerLimits.v, Proofs/ServerSteps.v. *)
+From NW Require Import Base.Bytes Model.SchemaTypes Gen.Schema Model.Codec Model.MsgInfo Model.Ids Model.Server.
+From NW Require Import Proofs.ServerLib Proofs.ServerRoute Proofs.ServerHandlers Proofs.ServerSteps Proofs.ServerPhases.
+From NW Require Import Proofs.ServerInvBase Proofs.ServerInv Proofs.ServerUniq Proofs.ServerInvCor Proofs.ServerLimits.
 
-(* the model computes: a client connects, identifies and creates a channel *)
-Example C14_model_smoke :
-  let cfg := {| domain := bs "localhost"; has_mod := false; op_auth := false; op_fbp := false; op_fev := false; op_spp := false;
-                proto := []; max_clients := 10; max_subs := 10; max_payload_cfg := 1024; max_inflight := 10; max_message := 1024;
-                keepalive := 60000; min_keepalive := 1000; max_conns := 16; pool_budget := 4194304 |} in
-  let s := run_state cfg init [Open 1; Bytes 1 (bs "CONNECT version=1 heartbeat_interval=0" ++ [NL]) [] [];
-                               Bytes 1 (bs "IDENTIFY username=alice" ++ [NL]) [] [];
-                               Bytes 1 (bs "JOIN id=1 channel=!c1@localhost" ++ [NL]) [] []] in
-  map fst (chans s) = [bs "c1"] /\ map fst (router s) = [bs "alice"].
-Proof. vm_compute. split; reflexivity. Qed.
+Theorem C14_limits_every_reachable_state :
+  forall (cfg : scfg) (ops : list op),
+    let s := run_state cfg init ops in
+    N.of_nat (Datatypes.length (conns s)) <= max_conns cfg /\
+    (Datatypes.length (conns s) <= N.to_nat (max_conns cfg))%nat /\
+    (forall (u : str) (l : list str),
+     alookup u (inch s) = Some l -> N.of_nat (Datatypes.length l) <= max_subs cfg) /\
+    (forall (hd : str) (ch : chan),
+     alookup hd (chans s) = Some ch ->
+     ch_max_payload ch <= max_payload_cfg cfg /\ ch_max_clients ch <= max_clients cfg).
+Proof. exact C14_limits_reachable. Qed.
+
+Theorem C14_connection_limit :
+  forall (cfg : scfg) (ops : list op),
+    N.of_nat (Datatypes.length (conns (run_state cfg init ops))) <= max_conns cfg.
+Proof. exact C14_connections. Qed.
+
+Theorem C14_open_beyond_limit_refused :
+  forall (cfg : scfg) (s : state) (h : N),
+    max_conns cfg <= N.of_nat (Datatypes.length (conns s)) ->
+    step cfg s (Open h) = (s, [OOverloaded h]).
+Proof. exact C14_open_refused. Qed.
+
+Theorem C14_closed_connection_slot_released :
+  forall (cfg : scfg) (s : state) (o : op) (h : N) (o' : out),
+    In o' (snd (step cfg s o)) -> ends h o' -> nlookup h (conns (fst (step cfg s o))) = None.
+Proof. exact C14_closed_connections_removed. Qed.
+
+Theorem C14_hangup_slot_released :
+  forall (cfg : scfg) (s : state) (h : N) (sc : list moutcome) (hi : list (str * nid)),
+    nlookup h (conns (fst (step cfg s (Hangup h sc hi)))) = None.
+Proof. exact C14_hangup_removes. Qed.
+
+Theorem C14_subscription_limit :
+  forall (cfg : scfg) (ops : list op) (u : str) (l : list str),
+    alookup u (inch (run_state cfg init ops)) = Some l ->
+    N.of_nat (Datatypes.length l) <= max_subs cfg.
+Proof. exact C14_subscriptions. Qed.
+
+Theorem C14_subscription_zero_example :
+  ops_ok subs0_cfg init subs0_ops /\
+    max_subs subs0_cfg = 0 /\
+    last (run subs0_cfg init subs0_ops) [] = [OClose 1 (err_msg (Some 1) "POLICY_VIOLATION")] /\
+    inch (run_state subs0_cfg init subs0_ops) = [] /\
+    inch (run_state subs0_cfg init (removelast subs0_ops)) = [] /\
+    chans (run_state subs0_cfg init subs0_ops) = [] /\
+    conns (run_state subs0_cfg init subs0_ops) = [].
+Proof. exact C14_subscriptions_zero_first_join_refused. Qed.
+
+Theorem C14_channel_capacity_at_admission :
+  forall (cfg : scfg) (h : N) (me : nid) (m : msg) (c : ctx),
+    snd (h_join cfg h me m c) = None ->
+    exists (hd : str) (n : nid),
+      chan_parse (get_str m "channel") = Some (hd, domain cfg) /\
+      (let ch := match alookup hd (chans (st c)) with
+                 | Some c0 => c0
+                 | None => new_chan cfg
+                 end in
+       let c' := fst (h_join cfg h me m c) in
+       N.of_nat (Datatypes.length (ch_members ch)) < ch_max_clients ch /\
+       alookup hd (chans (st c')) = Some (insert_member ch n) /\
+       ch_members (insert_member ch n) = ch_members ch ++ [n] /\
+       ch_max_clients (insert_member ch n) = ch_max_clients ch /\
+       N.of_nat (Datatypes.length (ch_members (insert_member ch n))) <=
+       ch_max_clients (insert_member ch n)).
+Proof. exact C14_channel_capacity_at_admission. Qed.
+
+Theorem C14_payload_limit :
+  forall (cfg : scfg) (h : N) (me : nid) (m : msg) (payload : list N) 
+      (c : ctx) (hd dom : str) (ch : chan),
+    snd (h_broadcast cfg h me m payload c) = None ->
+    chan_parse (get_str m "channel") = Some (hd, dom) ->
+    alookup hd (chans (st c)) = Some ch ->
+    N.of_nat (Datatypes.length (eff_payload cfg payload (script c))) <= ch_max_payload ch.
+Proof. exact C14_payload. Qed.
+
+Theorem C14_payload_limit_server_cap :
+  forall (cfg : scfg) (ops : list op) (h : N) (me : nid) (m : msg) 
+      (payload : list N) (sc : list moutcome) (hi : list (str * nid)) 
+      (os : list out) (cl : list N),
+    let c :=
+      {| st := run_state cfg init ops; script := sc; hints := hi; outs := os; closing := cl |}
+      in
+    snd (h_broadcast cfg h me m payload c) = None ->
+    N.of_nat (Datatypes.length (eff_payload cfg payload sc)) <= max_payload_cfg cfg.
+Proof. exact C14_payload_reachable. Qed.
+
+Theorem C14_acl_entry_limit :
+  forall (cfg : scfg) (h : N) (me : nid) (m : msg) (c : ctx),
+    snd (h_set_acl cfg h me m c) = None ->
+    exists (hd : str) (ch : chan) (ns : list nid) (a : acl),
+      chan_parse (get_str m "channel") = Some (hd, domain cfg) /\
+      parse_nids (get_vec m "nids") = Some ns /\
+      alookup hd (chans (st c)) = Some ch /\
+      a =
+      acl_update (get_acl ch (get_str m "type")) ns (list_eqb (get_str m "action") (bs "add")) /\
+      acl_total a <= ch_max_clients ch /\
+      st (fst (h_set_acl cfg h me m c)) = put_chan hd (set_acl ch (get_str m "type") a) (st c) /\
+      alookup hd (chans (st (fst (h_set_acl cfg h me m c)))) =
+      Some (set_acl ch (get_str m "type") a) /\
+      ch_max_clients (set_acl ch (get_str m "type") a) = ch_max_clients ch.
+Proof. exact C14_acl_entries. Qed.
+
+Theorem C14_inflight_zero :
+  forall (cfg : scfg) (h : N) (m : msg) (p : option (list N)) (c : ctx) (cn : conn),
+    nlookup h (conns (st c)) = Some cn ->
+    c_phase cn = Authenticated ->
+    existsb (N.eqb h) (closing c) = false ->
+    max_inflight cfg = 0 ->
+    is_kind m "PONG" = false ->
+    st (on_frame cfg h m p c) = st c /\ new_outs c (on_frame cfg h m p c) = [ODrop h].
+Proof. exact C12_no_capacity. Qed.
+
+Theorem C14_capacity_not_invariant_after_config_change :
+  let s := run_state cex_cfg init cap_ops in
+    ops_ok cex_cfg init cap_ops /\
+    last (run cex_cfg init cap_ops) [] =
+    [OSend 1 (build "SET_CHAN_CONFIG_ACK" [(bs "id", VNum 2)]) None] /\
+    (exists ch : chan,
+       alookup (bs "room") (chans s) = Some ch /\
+       Datatypes.length (ch_members ch) = 2%nat /\ ch_max_clients ch = 1).
+Proof. exact C14_capacity_not_invariant. Qed.
